@@ -61,7 +61,10 @@ def gen_doc(rng, scope, depth, maxdepth, names):
     def filler():
         out = emit_text(rng, rtext(rng))
         if rng.random() < 0.3:
-            out += "<!--" + rng.choice(["c", " note ", "x-y"]) + "-->" + emit_text(rng, rtext(rng, rng.choice([0, 1, 3])))
+            # one comment, or several written back to back, then (maybe) more text
+            for _ in range(rng.choice([1, 1, 2, 3])):
+                out += "<!--" + rng.choice(["c", " note ", "x-y", ""]) + "-->"
+            out += emit_text(rng, rtext(rng, rng.choice([0, 1, 3])))
         return out
     body = filler()
     for _ in range(nk):
